@@ -13,7 +13,7 @@ Model of the dynamically growing data segment (C15, resize part):
 as they are used by `iceoryx2/src/port/details/data_segment.rs`.
 
 One owner (`DynamicMemory`) and a list of views (`DynamicView`).  Chunks are named by labels
-(the harness' bookkeeping); the byte seen at the start of every bucket is tracked in `mem`
+(the harness' bookkeeping); the payload bytes of all segments are tracked in `mem`
 (shared memory: the owner and all views see the same bytes).
 Sizes/addresses are `Nat` (no `usize` overflow); the u64 counters never wrap under the usage
 contract (the invariant of `Iox2/Proof/ResizeMem*.lean` shows they do not underflow).
@@ -95,7 +95,7 @@ structure St where
   cur    : Nat            -- `current_idx`
   chunks : List Chunk
   views  : List View
-  /-- first byte of the bucket at (segment, offset) -/
+  /-- the byte at (segment, offset relative to the first bucket); fresh segments are zeroed -/
   mem    : Nat → Nat → Nat
 
 inductive CreateErr where
@@ -230,8 +230,13 @@ inductive Out where
   | dup | none | tainted
 deriving Repr, DecidableEq
 
-def setMem (m : Nat → Nat → Nat) (seg off b : Nat) : Nat → Nat → Nat :=
-  fun s o => if s = seg ∧ o = off then b else m s o
+/-- `write_bytes`: fill `[off, off+size)` of segment `seg` with `b` -/
+def fillMem (m : Nat → Nat → Nat) (seg off size b : Nat) : Nat → Nat → Nat :=
+  fun s o => if s = seg ∧ off ≤ o ∧ o < off + size then b else m s o
+
+/-- `copy(src, dst, len)` between (segment, offset) positions (memmove: reads the old content) -/
+def copyMem (m : Nat → Nat → Nat) (sseg soff dseg doff len : Nat) : Nat → Nat → Nat :=
+  fun s o => if s = dseg ∧ doff ≤ o ∧ o < doff + len then m sseg (soff + (o - doff)) else m s o
 
 def liveChunk (s : St) (l : Nat) : Option Chunk :=
   match getChunk s.chunks l with
@@ -262,17 +267,20 @@ def growChunk (s : St) (c : Chunk) (size align : Nat) (pl : Placement) : St × O
             | (g1', .ok off) =>
               let s2 := { s1 with segs := setSeg s1.segs { g1' with count := g1'.count + 1 } }
               -- content: front → the old bytes start the new chunk; back → they end it
-              let copyFirst := c.size > 0 ∧ (pl = .front ∨ size = c.size)
-              let mem := if copyFirst then setMem s2.mem s1.cur off (s2.mem c.seg c.off) else s2.mem
+              let shift := if pl = .back then size - c.size else 0
+              let mem := copyMem s2.mem c.seg c.off s1.cur (off + shift) c.size
               let s3 := deallocate { s2 with mem := mem } c.seg c.off
               let c' : Chunk := { label := c.label, seg := s1.cur, off := off, size := size, align := align,
                                   live := true, tainted := off = c.off }
               ({ s3 with chunks := putChunk s3.chunks c' }, .okAt s1.cur off)
     else
-      -- in place: the offset is returned with the segment id of the CURRENT segment
+      -- in place: the offset is returned with the segment id of the CURRENT segment; with the content
+      -- at the back the bytes are moved inside the memory of the CURRENT segment
       let c' : Chunk := { c with seg := s.cur, size := size, align := align,
                                  tainted := c.tainted || s.cur ≠ c.seg }
-      ({ s with chunks := putChunk s.chunks c' }, .okAt s.cur c.off)
+      let mem := if pl = .back ∧ size ≠ c.size
+                 then copyMem s.mem s.cur c.off s.cur (c.off + (size - c.size)) c.size else s.mem
+      ({ s with chunks := putChunk s.chunks c', mem := mem }, .okAt s.cur c.off)
 
 def step (s : St) : Op → St × Out
   | .alloc l size align =>
@@ -289,8 +297,7 @@ def step (s : St) : Op → St × Out
     | none => (s, .none)
     | some c =>
       if c.tainted then (s, .tainted)
-      else if c.size = 0 then (s, .ok)
-      else ({ s with mem := setMem s.mem c.seg c.off b }, .ok)
+      else ({ s with mem := fillMem s.mem c.seg c.off c.size b }, .ok)
   | .dealloc l =>
     match liveChunk s l with
     | none => (s, .none)
